@@ -581,3 +581,158 @@ Definition fillnull_proc (fillv : value) : proc :=
     (fun _ => None)
     (fun s => (fst s, true)).
 Definition fillnull_flags : dpflags := {| is_bottleneck := true; is_twopass := true |}.
+
+(* ====================================================================== *)
+(* Several upstream streams: the parallel plan of SetupQueryParallelism     *)
+(* ====================================================================== *)
+
+(* ---------- two-pass commands in general: a summary of the WHOLE input (first
+   pass), then a row function that uses it (second pass) ---------- *)
+Record twopass := mkTp {
+  tp_S : Type;
+  tp_init : tp_S;
+  tp_collect : tp_S -> row -> tp_S;
+  tp_apply : tp_S -> row -> row }.
+Definition tp_summary (t : twopass) (rows : batch) : tp_S t := fold_left (tp_collect t) rows (tp_init t).
+Definition tp_sem (t : twopass) (rows : batch) : batch := map (tp_apply t (tp_summary t rows)) rows.
+
+(* the processor shape of bincommand.go (no span) / fillnullcommand.go (no fields) *)
+Definition twopass_proc (t : twopass) : proc :=
+  mkProc (tp_S t * bool) (tp_init t, false)
+    (fun s inp =>
+       let '(a, second) := s in
+       match inp with
+       | None => (s, None, true)
+       | Some b =>
+         if second then (s, Some (map (tp_apply t a) b), false)
+         else ((fold_left (tp_collect t) b a, second), Some b, false)
+       end)
+    (fun _ => None)
+    (fun s => (fst s, true)).
+Definition twopass_flags : dpflags := {| is_bottleneck := true; is_twopass := true |}.
+
+(* a command that needs the whole input (level A form of a two-pass command) *)
+Definition whole_cmd (g : batch -> batch) : command :=
+  mkCmd batch [] (fun s b => (s ++ b, [], false)) g.
+
+(* fillnull without a field list *)
+Definition fillnull_tp (fillv : value) : twopass :=
+  mkTp (list field) [] row_cols (fill_row fillv).
+
+(* bin <field> without span: min / max of the numeric values, then findSpan *)
+Definition bin_acc := option (Z * Z).
+Definition bin_collect (f : field) (acc : bin_acc) (r : row) : bin_acc :=
+  match get r f with
+  | VNum z => match acc with
+              | None => Some (z, z)
+              | Some (lo, hi) => Some (Z.min lo z, Z.max hi z)
+              end
+  | _ => acc
+  end.
+(* least span * 10^k (k <= fuel) with span * den >= num *)
+Fixpoint pow10_ge (fuel : nat) (span num den : Z) : Z :=
+  match fuel with
+  | O => span
+  | S k => if (num <=? span * den)%Z then span else pow10_ge k (span * 10)%Z num den
+  end.
+(* getBinRange: lower = floor(v/span)*span, upper = ceil(v/span)*span, +span when equal *)
+Definition bin_lower (v span : Z) : Z := ((v / span) * span)%Z.
+Definition bin_upper (v span : Z) : Z := (bin_lower v span + span)%Z.
+(* "verify if estimated span gives correct number of bins" loop *)
+Fixpoint span_fit (fuel : nat) (span lo hi maxbins : Z) : Z :=
+  match fuel with
+  | O => span
+  | S k => if (maxbins * span <? bin_upper hi span - bin_lower lo span)%Z
+           then span_fit k (span * 10)%Z lo hi maxbins else span
+  end.
+(* findSpan for a non-time field, minspan/start/end not given.  None: the span would be
+   below 1 ((hi-lo)/maxbins <= 1/10), which the integer model does not cover *)
+Definition find_span (lo hi maxbins : Z) : option Z :=
+  if (lo =? hi)%Z then Some 1%Z
+  else if ((hi - lo) * 10 <=? maxbins)%Z then None
+  else Some (span_fit 40 (pow10_ge 40 1 (hi - lo) maxbins) lo hi maxbins).
+
+(* decimal digits of an integer as the bytes fmt "%v" prints for a float64 below 1e21
+   (used below 1e6 only) *)
+Fixpoint dec_pos (fuel : nat) (z : Z) (acc : list N) : list N :=
+  match fuel with
+  | O => acc
+  | S k => let d := (Z.to_N (z mod 10) + 48)%N in
+           if (z <? 10)%Z then d :: acc else dec_pos k (z / 10)%Z (d :: acc)
+  end.
+Definition dec_of_Z (z : Z) : list N :=
+  if (z <? 0)%Z then 45 :: dec_pos 40 (- z)%Z [] else dec_pos 40 z [].
+
+Definition bin_apply (f : field) (maxbins : Z) (acc : bin_acc) (r : row) : row :=
+  match acc with
+  | Some (lo, hi) =>
+    match find_span lo hi maxbins, get r f with
+    | Some span, VNum z =>
+      set_field r f (VStr (dec_of_Z (bin_lower z span) ++ [45] ++ dec_of_Z (bin_upper z span)))
+    | _, _ => r
+    end
+  | None => r
+  end.
+Definition bin_tp (f : field) (maxbins : Z) : twopass :=
+  mkTp bin_acc None (bin_collect f) (bin_apply f maxbins).
+
+(* ---------- the planner: CanParallelSearch over the DataProcessor flags ---------- *)
+Record dpinfo := mkInfo {
+  i_order_matters : bool;   (* DoesInputOrderMatter *)
+  i_ignores_order : bool;   (* IgnoresInputOrder *)
+  i_bottleneck : bool;      (* IsBottleneckCmd *)
+  i_twopass : bool;         (* IsTwoPassCmd *)
+  i_generates : bool }.     (* GeneratesData *)
+
+(* queryprocessor.go CanParallelSearch: (canSplit, index of the first bottleneck) *)
+Fixpoint can_parallel_from (can_split : bool) (i : nat) (cs : list dpinfo) : bool * nat :=
+  match cs with
+  | [] => (false, O)
+  | d :: r =>
+    if i_order_matters d then (false, O)
+    else if i_generates d then (false, O)
+    else
+      let can_split' := can_split || i_ignores_order d in
+      if i_bottleneck d then (can_split', i) else can_parallel_from can_split' (S i) r
+  end.
+Definition can_parallel (cs : list dpinfo) : bool * nat := can_parallel_from false O cs.
+
+(* what the commands are, and the flags their New*DP constructors declare *)
+Inductive kind :=
+| KRowwise      (* where eval fields rename rex regex makemv mvexpand tojson, bin span=, fillnull <fields> *)
+| KOrdered      (* head dedup streamstats transaction tail: the order of the input matters *)
+| KTwoPass      (* bin without span, fillnull without fields: need the whole input first *)
+| KAgg          (* stats sort top rare timechart: order-insensitive bottleneck *)
+| KGenerator.   (* gentimes inputlookup *)
+Definition flags_of (k : kind) : dpinfo :=
+  match k with
+  | KRowwise => mkInfo false false false false false
+  | KOrdered => mkInfo true false false false false
+  | KTwoPass => mkInfo false false true true false
+  | KAgg => mkInfo false true true false false
+  | KGenerator => mkInfo false false false false true
+  end.
+
+(* ---------- the parallel plan ---------- *)
+(* the row-wise front of the chain *)
+Definition prefix_sem (fs : list (row -> list row)) (rows : batch) : batch :=
+  fold_left (fun rs f => flat_map f rs) fs rows.
+
+(* one upstream stream: the front and the aggregation in one chain *)
+Definition single_stats_plan (m : monoid) (inj : row -> mcar m) (render : mcar m -> batch)
+  (fs : list (row -> list row)) (bs : list batch) : batch :=
+  concat (run_chain (map (fun f => Stage (rowwise_cmd f) (fun x => x)) fs
+                     ++ [Stage (stats_cmd m inj render) (fun x => x)]) bs).
+
+(* k chains: chain i gets the blocks [streams_i], runs its own copy of the front and of the
+   aggregation (partial aggregate = IQR stats results), the merger DP combines the partial
+   aggregates in the order in which the chains deliver them, the result is rendered once *)
+Definition parallel_stats_plan (m : monoid) (inj : row -> mcar m) (render : mcar m -> batch)
+  (fs : list (row -> list row)) (streams : list (list batch)) : batch :=
+  render (fold_left (mop m)
+            (map (fun s => magg m inj (prefix_sem fs (concat s))) streams) (mzero m)).
+
+(* a planner that splits IN FRONT of a two-pass command gives every chain's copy only the
+   rows of its own stream *)
+Definition tp_split_sem (t : twopass) (streams : list batch) : batch :=
+  flat_map (tp_sem t) streams.
